@@ -105,6 +105,8 @@ contract(MSM, "ShardsList.write_config", props=["C04", "C06", "C08", "C16", "C17
         "hide CERTDEF: ghostdef: forall(lambda r, q: implies(r != dataset_root_path, cert(r, q) == old(cert(r, q))), r='U', q='U')",
         # C04: the representation invariant of the certified part survives the write
         ("C04", "reveal PRE: hide GINVKEEP: implies(old(GINV(dataset_root_path)) and old(DISK_OK(dataset_root_path)), GINV(dataset_root_path))"),
+        # C04 / C06: the disk invariant survives the write of a locally exact list
+        (["C04", "C06"], "hide DISKKEEP: implies(old(DISK_OK(dataset_root_path)) and LEX(self), DISK_OK(dataset_root_path))"),
     ])
 
 contract(MSM, "ShardsList.load_or_create", props=["C04", "C08", "C17", "C06", "C20"],
